@@ -248,7 +248,9 @@ fn main() {
     for cfg in &cfgs {
         let huge = build_entry(cfg, frame_minimal(), vec![(s("H"), ValD::Metric { obs: huge_obs(), unit: UnitD::None, dims: vec![], flag: FlagD::None })]);
         let huge_split = build_entry(cfg, frame_minimal(), vec![(s("H"), ValD::Metric { obs: huge_obs(), unit: UnitD::None, dims: vec![(s("k"), s("v"))], flag: FlagD::None })]);
-        for big in [&huge, &huge_split] {
+        // a small split line first, then more than 1 MiB in the last line of the same entry
+        let small_then_huge = build_entry(cfg, frame_minimal(), vec![(s("S"), ValD::Metric { obs: vec![Obs::U(1)], unit: UnitD::None, dims: vec![(s("k"), s("v"))], flag: FlagD::None }), (s("H"), ValD::Metric { obs: huge_obs(), unit: UnitD::None, dims: vec![], flag: FlagD::None })]);
+        for big in [&huge, &huge_split, &small_then_huge] {
             let mut r = Runner::new(cfg);
             let mut out = Vec::new();
             let o = r.format(big, &mut out);
